@@ -146,6 +146,11 @@ def axis_values(n: int, kind: str, origin: float) -> np.ndarray:
         values = (origin + 0.5 * np.arange(n))[::-1].copy()
     elif kind == 'descnonuni':
         values = (origin + np.concatenate([[0.0], np.cumsum(GAPS[:max(0, n - 1)])])[:n])[::-1].copy()
+    elif kind == 'nearuni':
+        # uniform up to a perturbation of the last value that is far below any sensible tolerance
+        values = origin + 0.5 * np.arange(n)
+        if n > 2:
+            values[-1] += 2.0 ** -17
     elif kind in ('int', 'intdesc'):
         # whole-degree coordinates stored as integers (midpoints fall on x.5)
         values = (int(origin) + np.arange(n)).astype('int32')
@@ -233,17 +238,25 @@ def build_cf1d(spec: dict) -> tuple[xr.Dataset, Truth]:
                                            ints=spec.get('ints', False))
 
     extra_vars: dict[str, Any] = {}
-    if bounds in ('var', 'coord', 'gapped', 'overlap'):
-        mode = bounds if bounds in ('gapped', 'overlap') else 'contig'
-        lat_b = stored_bounds(lat_values, mode)
-        lon_b = stored_bounds(lon_values, mode)
-        lat.attrs['bounds'] = 'lat_bnds'
-        lon.attrs['bounds'] = 'lon_bnds'
-        extra_vars['lat_bnds'] = xr.DataArray(lat_b, dims=[y_dim, 'bnds'])
-        extra_vars['lon_bnds'] = xr.DataArray(lon_b, dims=[x_dim, 'bnds'])
-    else:
-        lat_b = midpoint_bounds(lat_values)
-        lon_b = midpoint_bounds(lon_values)
+    # 'bounds' applies to both coordinates unless one of them is given its own mode
+    lat_mode = spec.get('bounds_lat', bounds)
+    lon_mode = spec.get('bounds_lon', bounds)
+
+    def bounds_for(values, mode, coordinate, name, dim):
+        if mode in ('var', 'coord', 'gapped', 'overlap'):
+            b = stored_bounds(values, mode if mode in ('gapped', 'overlap') else 'contig')
+            if spec.get('signed_zero'):
+                # neighbouring cells write their common edge at zero with opposite signs
+                b = b.copy()
+                b[:, 1][b[:, 1] == 0] = -0.0
+                b[:, 0][b[:, 0] == 0] = 0.0
+            coordinate.attrs['bounds'] = name
+            extra_vars[name] = xr.DataArray(b, dims=[dim, 'bnds'])
+            return b
+        return midpoint_bounds(values)
+
+    lat_b = bounds_for(lat_values, lat_mode, lat, 'lat_bnds', y_dim)
+    lon_b = bounds_for(lon_values, lon_mode, lon, 'lon_bnds', x_dim)
 
     ds = xr.Dataset(
         data_vars={lat_name: lat, lon_name: lon, **extra_vars,
@@ -253,8 +266,10 @@ def build_cf1d(spec: dict) -> tuple[xr.Dataset, Truth]:
     coord_names = ['time', 'depth']
     if coords_as == 'coord':
         coord_names += [lat_name, lon_name]
-    if bounds == 'coord':
-        coord_names += ['lat_bnds', 'lon_bnds']
+    if lat_mode == 'coord':
+        coord_names += ['lat_bnds']
+    if lon_mode == 'coord':
+        coord_names += ['lon_bnds']
     ds = ds.set_coords([c for c in coord_names if c in ds.variables])
 
     polygons: list = []
@@ -272,9 +287,9 @@ def build_cf1d(spec: dict) -> tuple[xr.Dataset, Truth]:
         family='cf1d', convention='CFGrid1D', kinds=kinds, default_kind='face', vars=truths,
         polygons=polygons, polygon_compare='equals', centres=centres, centre_mode='stored',
         shift=shift, time_dim='time', depth_dim='depth', time_name='time', depth_names=['depth'],
-        geometry_names=[lon_name, lat_name] + (['lon_bnds', 'lat_bnds'] if extra_vars else []),
+        geometry_names=[lon_name, lat_name] + [n for n in ('lon_bnds', 'lat_bnds') if n in extra_vars],
         sizes=sizes, defined=(lat_b is not None and lon_b is not None),
-        lat_name=lat_name, lon_name=lon_name, explicit=bool(extra_vars),
+        lat_name=lat_name, lon_name=lon_name, explicit=('lat_bnds' in extra_vars and 'lon_bnds' in extra_vars),
     )
     return ds, truth
 
@@ -435,8 +450,9 @@ def build_cf2d(spec: dict) -> tuple[xr.Dataset, Truth]:
         if (dj, di) in holes:
             continue
         corners = cell_corners(x, y, dj, di)
-        (x0, y0), (x2, y2) = corners[0], corners[2]
-        corners[2] = (x0 + 0.25 * (x2 - x0), y0 + 0.25 * (y2 - y0))
+        which = (dj + di + spec.get('dart_corner', 2)) % 4     # the reflex corner sits at every position of the listed order
+        (xo, yo), (xp, yp) = corners[(which + 2) % 4], corners[which]
+        corners[which] = (xo + 0.25 * (xp - xo), yo + 0.25 * (yp - yo))
         polygons[dj * nx + di] = corners
         for name, column in (('lon_bnds', 0), ('lat_bnds', 1)):
             values = ds[name].values.copy()
@@ -498,6 +514,9 @@ def build_shoc_standard(spec: dict) -> tuple[xr.Dataset, Truth]:
             around = [(J + dj, I + di) for dj in (-1, 0) for di in (-1, 0)
                       if 0 <= J + dj < nj and 0 <= I + di < ni]
             node_missing[J, I] = all(c in dry for c in around)
+    if spec.get('ragged') and nj >= 3 and ni >= 3 and {(0, 0), (0, 1), (1, 0), (1, 1)} <= dry:
+        # a finite node that belongs to no cell with geometry (the outer corner of a dry block)
+        node_missing[0, 0] = False
     xg, yg = x.copy(), y.copy()
     xg[node_missing] = np.nan
     yg[node_missing] = np.nan
@@ -537,6 +556,10 @@ def build_shoc_standard(spec: dict) -> tuple[xr.Dataset, Truth]:
         'x_back': coord(xb, 'back', 'x_back', 'longitude', 'degrees_east'),
         'y_back': coord(yb, 'back', 'y_back', 'latitude', 'degrees_north'),
     }
+    if spec.get('transposed_lon'):
+        # the face longitude lists its dimensions in the other order than the face latitude
+        coords['x_centre'] = xr.DataArray(np.ascontiguousarray(xc.T), dims=dims['face'][::-1], name='x_centre',
+                                          attrs=coords['x_centre'].attrs)
     data_vars, truths = standard_variables(kinds, 'record', 'k_centre', sizes, 'face', shift,
                                            ints=spec.get('ints', False))
     z_centre = depth_variable('z_centre', 'k_centre', nk, positive='up', deep_to_shallow=True)
@@ -621,6 +644,10 @@ def mesh_library(name: str):
     if name == 'M8':
         nodes = [(0., 0.), (2., 0.), (2., 1.), (1., 1.), (1., 2.), (0., 2.), (2., 2.), (3., 0.), (3., 2.)]
         return nodes, [[0, 1, 2, 3, 4, 5], [3, 2, 6, 4], [1, 7, 8, 6, 2]]
+    if name == 'M11':
+        # a square cut into six triangles around two interior nodes: as many nodes as faces
+        nodes = [(0., 0.), (3., 0.), (3., 3.), (0., 3.), (1., 1.5), (2., 1.5)]
+        return nodes, [[0, 1, 4], [1, 5, 4], [1, 2, 5], [2, 3, 5], [3, 4, 5], [3, 0, 4]]
     if name == 'M10':
         nodes, faces = mesh_library('M4')
         return nodes + [(1.0, 0.5), (0.25, 1.5)], faces
@@ -717,8 +744,11 @@ def build_ugrid(spec: dict) -> tuple[xr.Dataset, Truth]:
         f = stored_faces[bowtie]
         f[1], f[2] = f[2], f[1]
     tables = mesh_tables(faces)
+    if spec.get('edge_face_missing_first'):
+        # a boundary edge may list its missing neighbour first
+        tables['edge_face'] = [ef[::-1] if ef[1] is None and e % 2 == 0 else ef for e, ef in enumerate(tables['edge_face'])]
     nface, nnode, nedge = len(faces), len(nodes), len(tables['edge_node'])
-    width = max(len(f) for f in faces)
+    width = max(len(f) for f in faces) + int(spec.get('extra_width', 0))
 
     has_edge_table = 'edge_node' in supplied or 'edge_face' in supplied
     if edge_dim_mode == 'auto':
@@ -743,9 +773,14 @@ def build_ugrid(spec: dict) -> tuple[xr.Dataset, Truth]:
         'face_node_connectivity': 'Mesh2_face_nodes',
     }
 
+    bases = spec.get('start_index_by_table', {})
+
     def add_table(var_name, role, rows, primary_dim, width_, other_dim):
-        values, attrs, _ = _encode_table(rows, width_, start_index, fill_mode, fill_value=spec.get('fill_value', -1),
+        base = bases.get(role.replace('_connectivity', ''), start_index)
+        values, attrs, _ = _encode_table(rows, width_, base, fill_mode, fill_value=spec.get('fill_value', -1),
                                          dtype=spec.get('conn_dtype', 'int32'))
+        if base == 0 and spec.get('omit_zero_start_index'):
+            attrs.pop('start_index')
         attrs = {'cf_role': role, 'long_name': role, **attrs}
         dims = [primary_dim, other_dim]
         if transposed:
@@ -778,6 +813,13 @@ def build_ugrid(spec: dict) -> tuple[xr.Dataset, Truth]:
         mesh_attrs['face_coordinates'] = 'Mesh2_face_x Mesh2_face_y'
 
     variables['Mesh2'] = xr.DataArray(np.int32(0), name='Mesh2', attrs=mesh_attrs)
+    if spec.get('second_mesh'):
+        # an unrelated one-dimensional network in the same file
+        variables['Mesh1_edge_nodes'] = xr.DataArray(np.array([[0, 1], [1, 2]], dtype='int32'), dims=['nMesh1_edge', 'Two'],
+                                                     attrs={'cf_role': 'edge_node_connectivity', 'start_index': 0})
+        variables['Mesh1'] = xr.DataArray(np.int32(0), name='Mesh1', attrs={
+            'cf_role': 'mesh_topology', 'topology_dimension': 1, 'node_coordinates': 'Mesh2_node_x Mesh2_node_y',
+            'edge_node_connectivity': 'Mesh1_edge_nodes'})
 
     kinds = {'face': {'dims': (FACE_DIM,), 'shape': (nface,)}, 'node': {'dims': (NODE_DIM,), 'shape': (nnode,)}}
     sizes = {FACE_DIM: nface, NODE_DIM: nnode, 'record': nt, 'Mesh2_layers': nk}
@@ -833,6 +875,16 @@ BUILDERS = {
 
 def build(spec: dict) -> tuple[xr.Dataset, Truth]:
     ds, truth = BUILDERS[spec['family']](spec)
+    if spec.get('fortran'):
+        # the same values held column-major (as after .T, transpose(), or reading some other formats)
+        for name in list(ds.variables):
+            if ds[name].ndim >= 2:
+                was_coord = name in ds.coords
+                encoding = dict(ds[name].encoding)
+                ds[name] = (ds[name].dims, np.asfortranarray(ds[name].values), ds[name].attrs)
+                ds[name].encoding.update(encoding)
+                if was_coord:
+                    ds = ds.set_coords(name)
     if spec.get('declare_reversed'):
         # Declare the dimensions of every grid in the opposite order to the convention's: a first
         # variable carries them reversed, so dataset.sizes / dataset.dims list e.g. x before y.
@@ -959,6 +1011,24 @@ def family_specs(tier: str, *, holes: bool = True, big: bool = True) -> list[dic
         if mesh in ('M4', 'M6'):
             specs.append({'family': 'ugrid', 'mesh': mesh, 'start_index': 1, 'fill': 'fillattr', 'fill_value': 0, 'supplied': ['edge_node']})
     specs.append({'family': 'ugrid', 'mesh': 'M10', 'supplied': ['edge_node']})
+    # as many nodes as faces; tables wider than the largest face; mixed index bases; missing neighbour listed first
+    specs.append({'family': 'ugrid', 'mesh': 'M11'})
+    specs.append({'family': 'ugrid', 'mesh': 'M1', 'extra_width': 1, 'fill': 'fillattr'})
+    specs.append({'family': 'ugrid', 'mesh': 'M6', 'supplied': ['edge_node', 'face_face'], 'start_index': 1,
+                  'start_index_by_table': {'face_face': 0, 'edge_node': 0}, 'omit_zero_start_index': True})
+    specs.append({'family': 'ugrid', 'mesh': 'M7', 'supplied': ['edge_node', 'edge_face'], 'edge_face_missing_first': True, 'fill': 'fillattr'})
+    specs.append({'family': 'ugrid', 'mesh': 'M4', 'second_mesh': True})
+    # column-major arrays, coordinates listing their dimensions in different orders, ragged node masks
+    specs.append({'family': 'shoc_standard', 'nj': 3, 'ni': 3, 'fortran': True, 'dry': 'farcorner'})
+    specs.append({'family': 'cf2d', 'ny': 3, 'nx': 4, 'geometry': 'skew', 'fortran': True, 'holes': 'first'})
+    specs.append({'family': 'shoc_standard', 'nj': 3, 'ni': 3, 'transposed_lon': True})
+    specs.append({'family': 'shoc_standard', 'nj': 2, 'ni': 3, 'transposed_lon': True, 'geometry': 'skew'})
+    specs.append({'family': 'shoc_standard', 'nj': 3, 'ni': 4, 'dry': 'corner', 'ragged': True, 'geometry': 'skew'})
+    # bounds on one coordinate only; nearly uniform axes; cell edges at signed zeros
+    specs.append({'family': 'cf1d', 'ny': 3, 'nx': 3, 'bounds_lat': 'gapped', 'bounds_lon': 'none'})
+    specs.append({'family': 'cf1d', 'ny': 3, 'nx': 4, 'bounds_lat': 'none', 'bounds_lon': 'var', 'lon_kind': 'nonuni'})
+    specs.append({'family': 'cf1d', 'ny': 3, 'nx': 4, 'lat_kind': 'nearuni', 'lon_kind': 'nearuni'})
+    specs.append({'family': 'cf1d', 'ny': 3, 'nx': 3, 'lat0': -0.125, 'lon0': -0.125, 'bounds': 'var', 'signed_zero': True})
     for mesh in []:
         specs.append({'family': 'ugrid', 'mesh': mesh, 'supplied': ['edge_node', 'face_edge'],
                       'start_index': 1, 'fill': 'fillattr', 'face_coords': True})
